@@ -447,6 +447,12 @@ func mkPeer(kind, key string) peerScript {
 		return peerScript{name: kind, chunks: [][]byte{[]byte("HTTP/1.1 400 Bad Request\r\nContent-Length: 0\r\n\r\n")}, silentAt: -1}
 	case "eof":
 		return peerScript{name: kind, silentAt: -1}
+	case "refusal-cut-then-silent":
+		// a refusing status line that breaks off before its line end; nothing more ever comes
+		return peerScript{name: kind, chunks: [][]byte{[]byte("HTTP/1.1 503 Service Unavailable")}, silentAt: 1}
+	case "accept-cut-then-silent":
+		// the same with a 101 line and half of the headers
+		return peerScript{name: kind, chunks: [][]byte{[]byte("HTTP/1.1 101 Switching Protocols\r\nUpgrade: websocket\r\nConnec")}, silentAt: 1}
 	}
 	panic("bad peer")
 }
@@ -456,7 +462,7 @@ func main() {
 	runtime.GOMAXPROCS(2)
 	explore.Main("C20", func(r *explore.Run) {
 		var cfgs []cfg
-		peers := []string{"responsive1", "silent0", "responsive3", "silent1", "error400", "eof"}
+		peers := []string{"responsive1", "silent0", "responsive3", "silent1", "error400", "eof", "refusal-cut-then-silent", "accept-cut-then-silent"}
 		for _, ck := range []string{"background", "cancellable", "deadline"} {
 			for _, to := range []string{"none", "short", "long"} {
 				for _, p := range peers {
